@@ -618,22 +618,27 @@ def enum_shard_source(eds, ctab=False):
     return "\n".join(out) + "\n"
 
 
-def shard_source(structs, enums_extra=(), enum_adapters=""):
+def shard_source(structs, enums_extra=(), enum_adapters="", spans=None):
+    """spans (optional list) receives (first_line, last_line, struct_name) for the lines owned by each struct"""
     enums, inners = required_types(structs)
     for e in enums_extra:
         enums[e.name] = e
-    out = [SHARD_PRELUDE]
-    any_dbg = any(s.debug for s in structs)
+    out = [SHARD_PRELUDE.rstrip("\n")]
     for name in sorted(enums):
         out.append(enum_decl(enums[name], derive_debug=True))
     for n, _ in sorted(inners):
         out.append(inner_decl(n, debug=True))
     twins = []
+    line = sum(x.count("\n") + 1 for x in out)
     for s in structs:
-        out.append(struct_decl(s))
+        chunk = struct_decl(s) + "\n" + adapter(s)
+        nl = chunk.count("\n") + 1
+        if spans is not None:
+            spans.append((line + 1, line + nl, s.name))
+        line += nl
+        out.append(chunk)
         if s.debug and s.twin:
             twins.append(twin_decl(s))
-        out.append(adapter(s))
     if twins:
         out.append("pub mod twin {\n use super::*;\n" + "\n".join(twins) + "\n}")
     out.append("pub fn machines() -> Vec<Box<dyn regmc::Machine>> { vec![")
